@@ -509,7 +509,7 @@ func (s *Server) routeData(w http.ResponseWriter, r *http.Request) {
 	compressed := r.Header.Get(HeaderContentEncoding) == HeaderGzip
 	sep := r.Header.Get(HeaderSep)
 	var metaLen int
-	if metaLen, err = strconv.Atoi(r.Header.Get(HeaderMetaLen)); err != nil {
+	if metaLen, err = strconv.Atoi(r.Header.Get(HeaderMetaLen)); err != nil || metaLen < 1 {
 		log.Debug("STS data request rejected: invalid meta len", r.Header.Get(HeaderMetaLen))
 		w.WriteHeader(http.StatusBadRequest)
 		return
